@@ -275,10 +275,22 @@ func corruptProof(r *Rng, kind int) []byte {
 	}
 	txids := randTxids(r, n)
 	matched := randMatch(r, n)
-	if kind == 11 && n >= 2 { // equal siblings (CVE-2012-2459 pattern)
-		i := r.Intn(n/2) * 2
-		txids[i+1] = txids[i]
-		matched[i] = true
+	if kind == 11 && n >= 2 { // equal siblings (CVE-2012-2459 pattern), at height 0 or higher up
+		if n >= 4 && r.Bool() {
+			w := 2
+			if n >= 8 && r.Bool() {
+				w = 4
+			}
+			i := r.Intn(n/(2*w)) * 2 * w
+			for j := 0; j < w; j++ {
+				txids[i+w+j] = txids[i+j]
+			}
+			matched[i+r.Intn(2*w)] = true
+		} else {
+			i := r.Intn(n/2) * 2
+			txids[i+1] = txids[i]
+			matched[i] = true
+		}
 	}
 	p := mkPMT(txids, matched)
 	header := mkHeader(r, mkRootLevels(txids))
